@@ -642,6 +642,70 @@ def replay_h_cats_in_clause(p, values, negate):
     return _replay_partition([("p", "not in" if negate else "in", list(values))], p, 0, 0, [])
 
 
+TEXT_LABELS = ["007", "1", "a", "True", "2021-03-01", "1e3", ".5"]
+TEXT_META = {"field_name": "p", "name": "p", "pandas_type": "unicode", "numpy_type": "object", "metadata": None}
+
+
+TEXT_META_STR = dict(TEXT_META, numpy_type="str")       # what pandas >= 3 records for its default string dtype
+
+
+def h_cats_in_text(il: int, io: int, negate: bool, with_meta: int, as_tuple: bool) -> bool:
+    """
+    pre: 0 <= il < 7 and 0 <= io < 7 and 0 <= with_meta <= 2
+    post: __return__
+    """
+    # a TEXT partition column whose labels may look like numbers, booleans or dates, filtered with `in` / `not in` over
+    # a list (or tuple) of texts, with the real label typing: the group is pruned only if its label fails the clause
+    import fastparquet.util as util
+    il, io, with_meta = _pick(il, 0, 6), _pick(io, 0, 6), _pick(with_meta, 0, 2)
+    label, other = TEXT_LABELS[il], TEXT_LABELS[io]
+    values = [other, "zz"] if negate else [label, other]
+    if negate and label == other:
+        return True
+    vals = tuple(values) if as_tuple else values
+    rg = _part_rg(5, [("p", label)])
+    saved = api.val_to_num
+    api.val_to_num = util.val_to_num
+    try:
+        pruned = api.filter_out_cats(rg, [("p", "not in" if negate else "in", vals)],
+                                     [{}, {"p": TEXT_META}, {"p": TEXT_META_STR}][with_meta])
+    finally:
+        api.val_to_num = saved
+    return not pruned
+
+
+def replay_h_cats_in_text(il, io, negate, with_meta, as_tuple):
+    import tempfile, os, shutil
+    import pandas as pd
+    import fastparquet
+    label, other = TEXT_LABELS[il], TEXT_LABELS[io]
+    values = [other, "zz"] if negate else [label, other]
+    vals = tuple(values) if as_tuple else values
+    dd = tempfile.mkdtemp(prefix="c05-")
+    try:
+        dn = os.path.join(dd, "ds")
+        df = pd.DataFrame({"p": pd.Series([label, label, "zz"], dtype="str" if with_meta == 2 else object),
+                           "a": [1, 2, 3]})
+        fastparquet.write(dn, df, file_scheme="hive", partition_on=["p"])
+        if not with_meta:
+            # a directory tree of another writer: no partition metadata
+            os.remove(os.path.join(dn, "_metadata"))
+            os.remove(os.path.join(dn, "_common_metadata"))
+            for dp, _, fs in os.walk(dn):
+                for f in fs:
+                    pf1 = fastparquet.ParquetFile(os.path.join(dp, f))
+                    fastparquet.writer.update_file_custom_metadata(os.path.join(dp, f), {"pandas": None})
+        pf = fastparquet.ParquetFile(dn)
+        flt = [("p", "not in" if negate else "in", vals)]
+        out = pf.to_pandas(filters=flt)
+        kept = sorted(int(x) for x in out["a"])
+        if not (1 in kept and 2 in kept):
+            return True, "text partition p=%r: filter %r keeps rows a=%r; rows a=1, a=2 satisfy it" % (label, flt, kept)
+        return False, "kept"
+    finally:
+        shutil.rmtree(dd, ignore_errors=True)
+
+
 # ------------------------------------------------------------ filter_row_groups --
 class _PF:
     def __init__(self, rgs):
@@ -685,22 +749,42 @@ def h_row_groups_and(min0: int, max0: int, p0: int, k: int, xa: int,
     return ordered and (kept or not sat)
 
 
-def _replay_partition(filters, p, lo, hi, avals):
+def _replay_partition(filters, p, lo, hi, avals, as_idx=False):
     """real hive dataset: partition p (the witness group, column a holding lo..hi and the witness value) next to
     partition p+1000; the rows of the witness group that satisfy the filters must come back"""
     import tempfile, os, shutil
     import pandas as pd
     import fastparquet
     a = [lo, hi] + list(avals)
-    df = pd.DataFrame({"a": a + [0], "p": [p] * len(a) + [p + 1000]})
+    p2, a2 = p + 1000, [0]
+    if as_idx:
+        # the second partition stands for the model's always-kept group: bounds so wide that no clause on `a` prunes
+        # it, and a partition value that satisfies the partition clause
+        groups0 = [filters] if filters and isinstance(filters[0][0], str) else filters
+        pcl = [c for g in groups0 for c in g if c[0] == "p"]
+        a2 = [-(2 ** 62), 2 ** 62]
+        if pcl:
+            p2 = pcl[0][2] if pcl[0][1] in ("==", "=") else pcl[0][2] + 1
+            if p2 == p:
+                p2 = p + 1000
+    df = pd.DataFrame({"a": a + a2, "p": [p] * len(a) + [p2] * len(a2)})
     d = tempfile.mkdtemp(prefix="c05-")
     try:
         dn = os.path.join(d, "ds")
         fastparquet.write(dn, df, file_scheme="hive", partition_on=["p"], stats=True)
         try:
-            out = fastparquet.ParquetFile(dn).to_pandas(filters=filters)
+            pf = fastparquet.ParquetFile(dn)
+            out = pf.to_pandas(filters=filters)
         except Exception as ex:
             return True, "filtered read raises %s: %s" % (type(ex).__name__, str(ex)[:60])
+        if as_idx:
+            # the index form of the same selection: increasing, no repeats, the same row groups
+            idx = api.filter_row_groups(pf, filters, as_idx=True)
+            rgs = api.filter_row_groups(pf, filters)
+            same = [i for i, rg in enumerate(pf.row_groups) if any(rg is r for r in rgs)]
+            if idx != sorted(set(idx)) or idx != same:
+                return True, "filter_row_groups(%r, as_idx=True) on a dataset of %d row groups gives %r; the " \
+                             "selected row groups are %r" % (filters, len(pf.row_groups), idx, same)
 
         def sat(row, grp):
             return all(row_pred(op, row[c], v) for c, op, v in grp)
@@ -738,7 +822,7 @@ def h_row_groups_or2(min0: int, max0: int, p0: int, k: int, xa: int,
 
 def replay_h_row_groups_or2(min0, max0, p0, k, xa, opa, va, pne, vp):
     A, P = ("a", OPS[opa], va), ("p", "!=" if pne else "==", vp)
-    return _replay_partition([[A], [P]], p0, min0, max0, [xa])
+    return _replay_partition([[A], [P]], p0, min0, max0, [xa], as_idx=True)
 
 
 def h_row_groups_or3(min0: int, max0: int, p0: int, k: int, xa: int,
@@ -758,7 +842,7 @@ def h_row_groups_or3(min0: int, max0: int, p0: int, k: int, xa: int,
 
 def replay_h_row_groups_or3(min0, max0, p0, k, xa, opa, va, pne, vp, blt, vb):
     A, P, B = ("a", OPS[opa], va), ("p", "!=" if pne else "==", vp), ("a", "<" if blt else ">=", vb)
-    return _replay_partition([[A, P], [B]], p0, min0, max0, [xa])
+    return _replay_partition([[A, P], [B]], p0, min0, max0, [xa], as_idx=True)
 
 
 # ------------------------------------------------------------------- replay kit --
